@@ -1789,7 +1789,11 @@ func (c *RemoteClient) handleRequestResponse(ctx context.Context, message *Messa
 	switch msg := message.Payload.(type) {
 	case *Headers:
 		for i, request := range c.requests {
-			if request.typ == MessageTypeGetHeaders && request.height == int(msg.RequestHeight) {
+			// New block notifications are headers messages with the request height left at zero,
+			// so a request by height also has to be answered from that height. A request for the
+			// most recent headers (-1) is answered from wherever they start.
+			if request.typ == MessageTypeGetHeaders && request.height == int(msg.RequestHeight) &&
+				(request.height < 0 || request.height == int(msg.StartHeight)) {
 				request.response <- message
 				c.requests = append(c.requests[:i], c.requests[i+1:]...)
 				return nil
